@@ -48,7 +48,7 @@ def rsa_batches(rng, tier):
   # D21: moduli of odd size whose 64 leading bits are a key of the shipped keypair table
   from paranoid_crypto.lib.data import default_storage as _ds
   tk = sorted(dict(_ds.DefaultStorage().GetKeypairData().table))
-  for sh in (1, 65, 449):
+  for sh in (1, 65, 449, 6, 198, 446):     # odd sizes, and even sizes whose primes would have >= 3 forced zero bits
     out.append(('keypair-prefix-odd-size', [(rng.choice(tk) << sh) | rng.getrandbits(sh) | 1]))
   out.append(('duplicates', [deg[0], deg[0]]))
   out.append(('all-degenerate', deg[:24]))
